@@ -321,6 +321,9 @@ class DictGen:
                 ok, v = lookup(pfx, o)
                 if ok and not isinstance(v, (dict, list)):
                     set_path(o, pfx, copy.deepcopy(empty))
+            if isinstance(o.get("R"), list):
+                # (rows stay sections: a scalar row is a non-container value at a prefix of 'R.<i>.N')
+                o["R"] = [x if isinstance(x, dict) else {"N": x if isinstance(x, (int, str)) else 0} for x in o["R"]]
         if isinstance(o.get("LABREA"), dict) and self.cfg.get("labrea_keys"):
             # (the reserved section keeps its shape: other mutations do not scribble into it)
             o["LABREA"] = {k: {"DISABLED": bool(v.get("DISABLED"))} for k, v in o["LABREA"].items() if isinstance(v, dict) and isinstance(v.get("DISABLED"), bool)}
